@@ -8,6 +8,7 @@ import Asn1Model.Oer
 import Asn1Model.OerTyping
 import Asn1Model.BerFraming
 import Asn1Model.Constraints
+import Asn1Model.TypeCheck
 /-
   Line protocol: one request per line `op<TAB>arg...`, args are S-expressions.
   One answer line per request.  Everything printed is canonical.
@@ -235,6 +236,33 @@ def opCheck (args : List Sx) : String :=
       (match Constraints.check ty val with
        | none => "ok"
        | some p => "err " ++ ".".intercalate p) ++ (if Constraints.admits ty val then " admits=T" else " admits=F")
+    | _, _ => "bad-args"
+  | _ => "bad-args"
+
+partial def sxPyVal? : Sx → Option TypeCheck.PyVal
+  | .atom "pf" => some .float
+  | .atom "pn" => some .none
+  | .list [.atom "pi", n] => (sxInt? n).map .int
+  | .list [.atom "pb", b] => (sxBool? b).map .bool
+  | .list (.atom "ps" :: cps) => (cps.mapM sxNat?).map .str
+  | .list [.atom "py", .atom h] => (fromHex (if h == "-" then "" else h)).map .bytes
+  | .list (.atom "pt" :: xs) => (xs.mapM sxPyVal?).map .tuple
+  | .list (.atom "pl" :: xs) => (xs.mapM sxPyVal?).map .list
+  | .list (.atom "pd" :: kvs) => (kvs.mapM fun (f : Sx) =>
+      match f with
+      | Sx.list [Sx.atom k, v] => (sxPyVal? v).map fun x => (k, x)
+      | _ => none).map .dict
+  | _ => none
+
+/-- `tcheck <ty> <pyval>` : type checker model -/
+def opTcheck (args : List Sx) : String :=
+  match args with
+  | [t, v] =>
+    match sxTy? t, sxPyVal? v with
+    | some ty, some pv =>
+      (match TypeCheck.tcheck ty pv with
+       | none => "ok"
+       | some p => "err " ++ TypeCheck.locationStr "A" p)
     | _, _ => "bad-args"
   | _ => "bad-args"
 
